@@ -147,9 +147,9 @@ theorem yaml_rendered_total {n : Nat} {yr yv : Yaml} {root : Mapping} {v : Value
 
 /-- Without `NoNest` the evaluator can panic: a hand-built layer list nested directly in a layer
 list reaches the `unreachable!` of `Token::resolve` (not constructible from YAML). -/
-example : renderParamsF 30
-    ⟨[(.str "a".toList, .vl [.vl [.str "x".toList]]), (.str "b".toList, .str "${a:k}".toList)], [], []⟩ =
-    .error (.panic .resolveNewvStrVl) := by rfl
+example : TextL.errOf (renderParamsF 30
+    ⟨[(.str "a".toList, .vl [.vl [.str "x".toList]]), (.str "b".toList, .str "${a:k}".toList)], [], []⟩) =
+    some (.panic .resolveNewvStrVl) := by decide +kernel
 
 /-- Decoder panic 1: a tagged YAML value hits `todo!("Tagged YAML values")`. -/
 example : Value.ofYaml (.tagged "!x".toList (.str "v".toList)) = .error (.panic .yamlTagged) := by rfl
@@ -166,14 +166,15 @@ example : Value.ofYaml (.map [(.str "=k".toList, .num (.int 1)), (.str "k".toLis
 
 /-- A well-formed, nesting-free mapping with layers and references: renders to an error that is
 not a panic (missing key) … -/
-example : renderParamsF 40
-    ⟨[(.str "a".toList, .vl [.num (.int 1), .str "${nope}".toList])], [], []⟩ =
-    .error (.missingKey "nope".toList "nope".toList "a".toList) := by rfl
+example : TextL.errOf (renderParamsF 40
+    ⟨[(.str "a".toList, .vl [.num (.int 1), .str "${nope}".toList])], [], []⟩) =
+    some (.missingKey "nope".toList "nope".toList "a".toList) := by decide +kernel
 
 /-- … and one that renders to a value. -/
-example : renderParamsF 40
-    ⟨[(.str "a".toList, .vl [.num (.int 1), .str "${b}".toList]), (.str "b".toList, .num (.int 2))], [], []⟩ =
-    .ok ⟨[(.str "a".toList, .num (.int 2)), (.str "b".toList, .num (.int 2))], [], []⟩ := by rfl
+example : (match renderParamsF 40
+    ⟨[(.str "a".toList, .vl [.num (.int 1), .str "${b}".toList]), (.str "b".toList, .num (.int 2))], [], []⟩ with
+    | .ok out => (match jsonOf out.toValue with | .ok s => some s | .error _ => none)
+    | .error _ => none) = some "{\"a\":2,\"b\":2}".toList := by decide +kernel
 
 example : WF (Mapping.toValue ⟨[(.str "a".toList, .vl [.num (.int 1), .str "${b}".toList]),
     (.str "b".toList, .num (.int 2))], [], []⟩) ∧
@@ -187,8 +188,9 @@ example : WF (Mapping.toValue ⟨[(.str "a".toList, .vl [.num (.int 1), .str "${
   rcases hx with rfl | rfl <;> rfl
 
 /-- A loop is an error, not a panic or divergence. -/
-example : renderParamsF 60 ⟨[(.str "a".toList, .str "${b}".toList), (.str "b".toList, .str "${a}".toList)], [], []⟩ =
-    .error .loop := by rfl
+example : TextL.errOf (renderParamsF 60
+    ⟨[(.str "a".toList, .str "${b}".toList), (.str "b".toList, .str "${a}".toList)], [], []⟩) =
+    some .loop := by decide +kernel
 
 end C11
 end Reclass
